@@ -51,7 +51,7 @@ const (
 	apiVar  = "FindVarByName"
 )
 
-var mutationKinds = []string{"drop-last-byte", "append-0", "swap-case-of-base", "strip-package", "duplicate-last-dot", "unescape-import-path", "import-path-without-first-element", "import-path-last-element-only"}
+var mutationKinds = []string{"drop-last-byte", "append-0", "swap-case-of-base", "strip-package", "duplicate-last-dot", "unescape-import-path", "import-path-without-first-element", "import-path-last-element-only", "vendored-name-without-vendor-prefix"}
 
 var keepDot = dotpkg.Keep(1)
 
@@ -126,6 +126,14 @@ func mutate(name string, k int) (string, bool) {
 	case 6: // the import path without its first element ("tencent/goom/test.foo")
 		if i := strings.IndexByte(name, '/'); i >= 0 && i+1 < len(name) {
 			return name[i+1:], true
+		}
+		return "", false
+	case 8: // a vendored copy's name without its "vendor/" prefix: the package of that path is another package
+		if strings.HasPrefix(name, "vendor/") {
+			return name[len("vendor/"):], true
+		}
+		if i := strings.Index(name, "/vendor/"); i >= 0 {
+			return name[i+len("/vendor/"):], true
 		}
 		return "", false
 	case 7: // only the last element of the import path ("test.foo")
